@@ -13,6 +13,9 @@ p-th root enter only through the stated hypothesis (e.g. `C.sqrt t * C.sqrt t = 
 -/
 import MysticVerif.Proofs.Measures
 import MysticVerif.Proofs.Trimmed
+import MysticVerif.Proofs.MeasuresX
+import MysticVerif.Props.C18X
+import MysticVerif.Props.C18Dist
 import Mathlib.Tactic.NormNum
 
 set_option linter.unusedSectionVars false
@@ -125,6 +128,15 @@ theorem expected_moment_def {X : Type} (C : Consts K) (f : X → K) (xs : List X
     rw [heavy_nil_of_filter xs w tol h0] at hs
     simp at hs
   · exact moment_eq C _ _ n (show _ ∧ _ from ⟨by simp, hs⟩) hn
+
+/-- **expected_variance / expected_std** (l.245, l.260): the textbook variance of `f` over the `|w| > tol` points, and
+its square root. -/
+theorem expected_variance_def {X : Type} (C : Consts K) (f : X → K) (xs : List X) (w : List K) (tol : K)
+    (hs : ((heavy xs w tol).map (·.2)).sum ≠ 0) :
+    expectedVariance C f xs (some w) tol =
+      gmom ((heavy xs w tol).map fun p => f p.1) (some ((heavy xs w tol).map (·.2))) 2 ∧
+    expectedStd C f xs (some w) tol = C.sqrt (expectedVariance C f xs (some w) tol) :=
+  ⟨expected_moment_def C f xs w tol 2 (le_refl _) hs, rfl⟩
 
 /-! ## impose_mean -/
 
@@ -516,6 +528,107 @@ example : medianSel [(3 : ℚ), 1, 2, 5] (some [1, 1, 2, 1]) = [2, 3] := by
 example : medianSel [(3 : ℚ), 1, 2] none = [2] := by
   norm_num [medianSel, sortPairs, insertBy, pairsOf, cumsumFrom, lsum]
 
+/-- rational constants for the examples -/
+def CQ0 : Consts ℚ := { inf := 0, nan := 0, sqrt := id, root := fun _ x => x }
+
+/-! ### median / mad / impose_median / impose_mad, second round (l.1491-1546)
+
+`MedValid xs ws`: at least one (sample, weight) pair and a NON-NEGATIVE total weight (single weights may be zero or
+negative) - then the selection `x[s/2. - cumsum(w) <= 0][0:2-x.size%2]` is never empty.  All statements are about the
+model's STABLE sort, for all inputs including ties; which of two EQUAL samples carrying different weights numpy's
+`argsort` puts first is outside the model, and in binary64 the rescaling can break an exact tie of two deviations the
+other way (F18): at such ties the weighted median of an even number of points jumps. -/
+
+/-- **median, as the code defines the weighted median** (l.1499-1501): with the (sample, weight) pairs sorted by sample,
+`S` the total weight and `cₖ = w₀ + … + wₖ` the cumulative weights of the sorted pairs, the median is the mean of the
+first `2 - n % 2` sorted samples whose cumulative weight reaches `S / 2`; the selection is non-empty, consists of
+samples, and the median lies between any bounds of the samples. -/
+theorem median_def (C : Consts K) (xs : List K) (ws : Option (List K)) (h : MedValid xs ws) :
+    median C xs ws = meanUpTo2 C (((((sortedX xs ws).zip (cumsumFrom 0 ((sortedOf xs ws).map (·.2)))).filter
+        fun p => decide (((pairsOf xs ws).map (·.2)).sum / 2 ≤ p.2)).map (·.1)).take (2 - (pairsOf xs ws).length % 2)) ∧
+    (∀ k, k < ((sortedOf xs ws).map (·.2)).length →
+      (cumsumFrom 0 ((sortedOf xs ws).map (·.2)))[k]? = some ((((sortedOf xs ws).map (·.2)).take (k + 1)).sum)) ∧
+    medianSel xs ws ≠ [] ∧ (∀ x ∈ medianSel xs ws, x ∈ xs) ∧
+    ∀ lo hi, (∀ x ∈ xs, lo ≤ x ∧ x ≤ hi) → lo ≤ median C xs ws ∧ median C xs ws ≤ hi := by
+  refine ⟨?_, ?_, medianSel_ne_nil xs ws h, medianSel_subset xs ws, fun lo hi hb => median_bounds C xs ws h lo hi hb⟩
+  · unfold median medianSel sortedX sortedOf
+    have hsum : ((sortPairs (pairsOf xs ws)).map (·.2)).sum = ((pairsOf xs ws).map (·.2)).sum :=
+      ((sortPairs_perm (pairsOf xs ws)).map _).sum_eq
+    rw [lsum_eq, hsum, sortPairs_length]
+    congr 4
+    funext p
+    simp only [decide_eq_decide]
+    constructor <;> intro h' <;> linarith
+  · intro k hk
+    have := cumsumFrom_getElem? (0 : K) ((sortedOf xs ws).map (·.2)) k hk
+    rw [this, zero_add]
+
+/-- **impose_median keeps the mad** (docstring l.1518 'mad-preserving'). -/
+theorem impose_median_keeps_mad (C : Consts K) (m : K) (xs : List K) (ws : Option (List K)) (h : MedValid xs ws) :
+    mad C (imposeMedian C m xs ws) ws = mad C xs ws := by
+  unfold imposeMedian
+  exact mad_shift C _ xs ws (medianSel_ne_nil xs ws h)
+
+/-- **mad** is non-negative, invariant under shifts and equivariant under positive scalings of the samples. -/
+theorem mad_affine (C : Consts K) (xs : List K) (ws : Option (List K)) (h : MedValid xs ws) (c s : K) (hs : 0 < s) :
+    0 ≤ mad C xs ws ∧ mad C (xs.map (· + c)) ws = mad C xs ws ∧ mad C (xs.map (· * s)) ws = mad C xs ws * s ∧
+    median C (xs.map (· * s)) ws = median C xs ws * s :=
+  ⟨mad_nonneg C xs ws h, mad_shift C c xs ws (medianSel_ne_nil xs ws h), mad_scale C s hs xs ws h,
+    median_scale C s hs xs ws (medianSel_ne_nil xs ws h)⟩
+
+/-- **impose_mad** (l.1529): for a non-degenerate input (mad ≠ 0) and a POSITIVE target `s`, the result has median
+absolute deviation `s` and the old median. -/
+theorem impose_mad_spec (C : Consts K) (s : K) (xs : List K) (ws : Option (List K)) (h : MedValid xs ws)
+    (hm : mad C xs ws ≠ 0) (hs : 0 < s) :
+    mad C (imposeMad C s xs ws) ws = s ∧ median C (imposeMad C s xs ws) ws = median C xs ws := by
+  have hpos : 0 < mad C xs ws := lt_of_le_of_ne (mad_nonneg C xs ws h) (Ne.symm hm)
+  have hc : 0 < s / mad C xs ws := div_pos hs hpos
+  unfold imposeMad
+  rw [if_pos ((truthy_iff _).mpr hm)]
+  have hv := h.map (· * (s / mad C xs ws))
+  constructor
+  · rw [impose_median_keeps_mad C _ _ ws hv, mad_scale C _ hc xs ws h]; field_simp
+  · exact (impose_median_spec C _ _ ws (medianSel_ne_nil _ ws hv)).1
+
+/-- **impose_mad, target 0**: every sample lands on the old median; mad 0, median kept. -/
+theorem impose_mad_zero_spec (C : Consts K) (xs : List K) (ws : Option (List K)) (h : MedValid xs ws)
+    (hm : mad C xs ws ≠ 0) :
+    mad C (imposeMad C 0 xs ws) ws = 0 ∧ median C (imposeMad C 0 xs ws) ws = median C xs ws ∧
+    ∀ y ∈ imposeMad C 0 xs ws, y = median C xs ws := by
+  unfold imposeMad
+  rw [if_pos ((truthy_iff _).mpr hm)]
+  have hv := h.map (· * (0 / mad C xs ws))
+  have h0 : median C (xs.map (· * (0 / mad C xs ws))) ws = 0 :=
+    median_const C _ ws hv 0 (by intro y hy; obtain ⟨x, _, rfl⟩ := List.mem_map.mp hy; simp)
+  have hall : ∀ y ∈ imposeMedian C (median C xs ws) (xs.map (· * (0 / mad C xs ws))) ws, y = median C xs ws := by
+    intro y hy
+    unfold imposeMedian at hy
+    rw [h0] at hy
+    obtain ⟨z, hz, rfl⟩ := List.mem_map.mp hy
+    obtain ⟨x, _, rfl⟩ := List.mem_map.mp hz
+    simp
+  have hv2 : MedValid (imposeMedian C (median C xs ws) (xs.map (· * (0 / mad C xs ws))) ws) ws := by
+    unfold imposeMedian; exact hv.map _
+  have hmed := median_const C _ ws hv2 _ hall
+  exact ⟨mad_const C _ ws hv2 _ hall, hmed, hall⟩
+
+/-- **impose_mad, degenerate input** (l.1542-1543): zero mad returns `nan`s (excluded by the property). -/
+theorem impose_mad_degenerate (C : Consts K) (s : K) (xs : List K) (ws : Option (List K)) (hm : mad C xs ws = 0) :
+    imposeMad C s xs ws = List.replicate xs.length C.nan := by
+  unfold imposeMad
+  rw [if_neg ((truthy_false_iff _).mpr hm)]
+
+/-- non-vacuity: weighted samples with a tie of two deviations carrying different weights (the F18 input) -/
+example : MedValid [(1 / 4 : ℚ), -15 / 4, 25 / 4, -2] (some [4, 1, 2, 1]) := by
+  constructor
+  · simp [pairsOf]
+  · norm_num [pairsOf]
+example : median CQ0 [(1 / 4 : ℚ), -15 / 4, 25 / 4, -2] (some [4, 1, 2, 1]) = 13 / 4 ∧
+    mad CQ0 [(1 / 4 : ℚ), -15 / 4, 25 / 4, -2] (some [4, 1, 2, 1]) = 3 := by decide +kernel
+/-- in exact arithmetic (stable sort) the F18 input DOES reach its target 7/2: the defect is one of rounding at the tie -/
+example : mad CQ0 (imposeMad CQ0 (7 / 2) [(1 / 4 : ℚ), -15 / 4, 25 / 4, -2] (some [4, 1, 2, 1])) (some [4, 1, 2, 1]) = 7 / 2 := by
+  decide +kernel
+
 /-! ## trimmed / winsorised variants: `_sort`, `_k`, tmean, tvariance, tstd and their imposers (l.1480, l.1549-1697)
 
 `T : TConsts K` carries `ndarray.round(15)`, the literal `.01` and `isfinite`: every statement holds for ALL choices.
@@ -648,13 +761,14 @@ example : tmean TQ [3, 1, 2, 5] none 25 25 false = 5 / 2 ∧ tvariance CQ TQ [3,
 example : tvariance CQ TQ [3, 1, 2, 5] (some [1, 1, 2, 4]) 10 30 false = 17 / 9 := by decide +kernel
 
 /-
-NOT PROVED (listed in DESIGN.md section 5, C18, as extensions):
-  impose_mad_spec      - `mad (imposeMad s xs ws) = s` and median kept (needs scale-equivariance of the median selection
-                         for a strictly positive factor; the model `mad`, `imposeMad` exists and is in the correspondence);
+NOT PROVED:
   a closed form of `_k` for a general cut (retained mass `max 0 (min Wᵢ b - max Wᵢ₋₁ a)` of the sorted sample `i`):
                          the model `kTrim` is the code as written and is compared bit-exactly; the closed form is what the
-                         harness monitor computes independently in exact rationals (harness/c18.py `tb_trim`).
-Also not proved: `connected`-level characterisation of `GroupOK` (acyclic pair selections give `GroupOK` groups).
+                         harness monitor computes independently in exact rationals (harness/c18.py `tb_trim`);
+  `connected`-level characterisation of `GroupOK` (acyclic pair selections give `GroupOK` groups);
+  impose_mad for a NEGATIVE target (the code then reflects the samples; with ties the stable selection is not symmetric).
+impose_mad_spec / impose_median_keeps_mad / median_def are proved above (second round); the standardised moments,
+impose_moment, impose_product, normalize 'l<p>' are in Props/C18X.lean, the shape logic of distance.py in Props/C18Dist.lean.
 -/
 
 end MysticVerif.C18
